@@ -1,0 +1,12 @@
+//go:build verif
+
+// Contracts for package io (gotree/io), checked by /verif (govc). Comments only.
+
+package io
+
+//@ func io.LogError
+//@   assigns nothing
+//@ func io.LogWarning
+//@   assigns nothing
+//@ func io.LogInfo
+//@   assigns nothing
